@@ -38,43 +38,62 @@ def check_obligation(ex, ob, timeout_ms=10000, mode="all"):
     if z3.is_false(goal) or mode == "fast":
         # goal `False` = "this path must be infeasible": the quick stage decides
         return "unknown", time.time() - t0, s.reason_unknown() if mode != "external" else "not tried"
-    # stages 2, 3: the same query in FRESH solver processes (the in-process context carries the term/symbol history of every
-    # earlier query of this function, which makes E-matching verdicts flip between runs; a fresh process does not)
-    detail = s.reason_unknown() if mode != "external" else ""
-    for cmd, label in external_solvers(timeout_ms):
-        res = run_external(s, cmd, timeout_ms)
-        if res == "unsat":
-            return "proved", time.time() - t0, f"{label} (fresh process)"
-        if res == "sat":
-            return "refuted", time.time() - t0, f"{label}: sat"
-        detail = f"{label}: {res}"
-    return "unknown", time.time() - t0, detail
+    # stage 2: the same query (SMT-LIB export) in FRESH solver processes, as a small parallel portfolio: z3 5.1 with four
+    # random seeds and z3 4.8.12.  The in-process context carries the term history of every earlier query of the function
+    # and E-matching verdicts flip with the argument order of commutative operators; any member answering `unsat` proves.
+    res, label = run_portfolio(s, timeout_ms)
+    if res == "unsat":
+        return "proved", time.time() - t0, f"{label} (fresh process)"
+    if res == "sat":
+        return "refuted", time.time() - t0, f"{label}: sat"
+    return "unknown", time.time() - t0, f"portfolio: {label}"
 
 
-def external_solvers(timeout_ms):
-    import shutil
-    sec = max(1, timeout_ms // 1000)
-    out = []
-    for exe, label, t in (("z3-new", "z3 5.1 cli", sec), ("/usr/bin/z3", "z3 4.8.12 cli", min(sec, 5))):
-        path = shutil.which(exe)
-        if path:
-            out.append(([path, f"-T:{t}", "smt.mbqi=false"], label))
-    return out
-
-
-def run_external(solver, cmd, timeout_ms):
+def run_portfolio(solver, timeout_ms):
     import os
+    import shutil
     import subprocess
     import tempfile
+    sec = max(1, timeout_ms // 1000)
+    z3new, z3old = shutil.which("z3-new"), shutil.which("/usr/bin/z3")
+    cmds = []
+    if z3new:
+        cmds += [([z3new, f"-T:{sec}", "smt.mbqi=false", f"smt.random_seed={k}"], f"z3 5.1 cli seed {k}") for k in (0, 1, 2, 3)]
+    if z3old:
+        cmds.append(([z3old, f"-T:{min(sec, 5)}", "smt.mbqi=false"], "z3 4.8.12 cli"))
+    if not cmds:
+        return "unknown", "no external solver"
     fd, path = tempfile.mkstemp(suffix=".smt2", prefix="pyvc_")
+    procs = []
     try:
         with os.fdopen(fd, "w") as f:
             f.write("(set-logic ALL)\n" + solver.to_smt2())
-        out = subprocess.run(cmd + [path], capture_output=True, text=True, timeout=timeout_ms / 1000 + 10).stdout.strip().splitlines()
-        return out[0].strip() if out else "unknown"
-    except Exception:  # noqa: BLE001
-        return "unknown"
+        for cmd, label in cmds:
+            procs.append((subprocess.Popen(cmd + [path], stdout=subprocess.PIPE, stderr=subprocess.DEVNULL, text=True), label))
+        deadline = time.time() + sec + 5
+        answers = {}
+        while len(answers) < len(procs) and time.time() < deadline:
+            for p, label in procs:
+                if label not in answers and p.poll() is not None:
+                    out = (p.stdout.read() or "").strip().splitlines()
+                    answers[label] = out[0].strip() if out else "unknown"
+                    if answers[label] == "unsat":
+                        return "unsat", label
+            time.sleep(0.02)
+        sat = [l for l, a in answers.items() if a == "sat"]
+        if sat:
+            return "sat", sat[0]
+        return "unknown", ", ".join(f"{l}: {a}" for l, a in answers.items()) or "timeout"
+    except Exception as e:  # noqa: BLE001
+        return "unknown", f"portfolio error {type(e).__name__}"
     finally:
+        for p, _ in procs:
+            if p.poll() is None:
+                p.kill()
+            try:
+                p.wait(timeout=2)
+            except Exception:  # noqa: BLE001
+                pass
         try:
             os.unlink(path)
         except OSError:
